@@ -30,25 +30,67 @@ theorem C08.lifecycle_order_unload (o : Ord) (st : State) (sb : Sym) (l : List S
     Nonempty (PassSpec o st .term .final Event.unload l.reverse (unload o st sb)) :=
   Pass08.lifecycle_order_unload o st sb l h
 
-/-- **Error aborts (within a pass).** If `load` returns an error then that error is exactly what
-the last lifecycle flow in the log answered, that flow's targets did answer with an error, and
-the log ends with it (init flow) or with the block it closes (begin flow): no hook and no flow ran
-after the failing flow. -/
+/-- **Error aborts (within a pass).** If `load` returns an error then the log ends with the
+activation of an activated symbol cut short by exactly that error (`AbortTail`): its init flow
+answered with it (any error value – a dropped packet included); or a load hook that runs before the
+observing hooks refused the symbol with it (no load notification was recorded); or one that runs
+after them did (the notification was recorded); or its begin flow answered with it – and no hook
+and no flow ran after it. -/
 theorem C08.error_aborts_load (o : Ord) (st : State) (sb : Sym) (es : List Nat)
     (h : (load o st sb).2 = .err es) :
-    es ≠ [] ∧ ∃ x pre, isActivated o st x = some true ∧
-      (((load o st sb).1.log = st.log ++ pre ++ [flowEv st x .init] ∧ flowErrs st x .init = es) ∨
-       ((load o st sb).1.log = st.log ++ pre ++ actBlock st x ∧ flowErrs st x .init = [] ∧
-          flowErrs st x .begin = es)) :=
+    es ≠ [] ∧ ∃ x pre tail, isActivated o st x = some true ∧
+      (load o st sb).1.log = st.log ++ pre ++ tail ∧ AbortTail st x .init .begin Event.load tail es :=
   Pass08.error_aborts_load o st sb es h
 
+/-- The same for `unload`: term flow, unload hooks that run before / after the observing hooks
+(`UnloadHooks.Unload` runs last registered first), final flow. -/
 theorem C08.error_aborts_unload (o : Ord) (st : State) (sb : Sym) (es : List Nat)
     (h : (unload o st sb).2 = .err es) :
-    es ≠ [] ∧ ∃ x pre, isActivated o st x = some true ∧
-      (((unload o st sb).1.log = st.log ++ pre ++ [flowEv st x .term] ∧ flowErrs st x .term = es) ∨
-       ((unload o st sb).1.log = st.log ++ pre ++ deactBlock st x ∧ flowErrs st x .term = [] ∧
-          flowErrs st x .final = es)) :=
+    es ≠ [] ∧ ∃ x pre tail, isActivated o st x = some true ∧
+      (unload o st sb).1.log = st.log ++ pre ++ tail ∧ AbortTail st x .term .final Event.unload tail es :=
   Pass08.error_aborts_unload o st sb es h
+
+/-- **One (de)activation ends at its first error.** `notify` (the body of the load / unload loop for
+one activated symbol: first flow, hooks, second flow) appends the complete block and returns nil,
+or returns an error and appends an `AbortTail`; it never answers `panic`. -/
+theorem C08.notify_aborts_at_first_error (st : State) (x : Sym) (p1 p2 : Phase) (mid : Nat → Event) :
+    ∃ evs, (notify st x (isUnl p1) p1 p2 mid).1 = { st with log := st.log ++ evs } ∧
+      (((notify st x (isUnl p1) p1 p2 mid).2 = .ok ∧ evs = [flowEv st x p1, mid x.id, flowEv st x p2] ∧
+          flowErrs st x p1 = [] ∧ flowErrs st x p2 = []) ∨
+       (∃ es, (notify st x (isUnl p1) p1 p2 mid).2 = .err es ∧ AbortTail st x p1 p2 mid evs es)) :=
+  notify_spec st x p1 p2 mid
+
+/-- **A failed first flow runs nothing else for that symbol** – whatever the error value: when the
+init (term) flow of `x` answers with errors, the aborted activation consists of that flow alone and
+its errors are what is returned: no hook, no notification, no second flow. -/
+theorem C08.failed_first_flow_runs_nothing (st : State) (x : Sym) (p1 p2 : Phase) (mid : Nat → Event)
+    (tail : List Event) (es : List Nat) (h : AbortTail st x p1 p2 mid tail es)
+    (hf : flowErrs st x p1 ≠ []) : tail = [flowEv st x p1] ∧ es = flowErrs st x p1 := by
+  rcases h with ⟨h1, h2, _⟩ | ⟨_, _, _, _, _, _, _, h0⟩ | ⟨_, _, _, _, _, _, _, h0⟩ | ⟨_, h0, _⟩
+  · exact ⟨h1, h2.symm⟩
+  · exact absurd h0 hf
+  · exact absurd h0 hf
+  · exact absurd h0 hf
+
+/-- **A refused unload notifies no hook that runs after the refusing one.** When the deactivation
+of `x` is cut short by an unload hook that runs before the observing hooks (it was registered
+after them), no unload notification and no final flow of `x` are recorded, and the error returned
+is that hook's. Likewise for a load hook registered before the observing hooks. -/
+theorem C08.refusal_before_observers_unobserved (st : State) (x : Sym) (p1 p2 : Phase) (unl : Bool)
+    (hu : isUnl p1 = unl) (tail : List Event) (es : List Nat)
+    (h : AbortTail st x p1 p2 (if unl then Event.unload else Event.load) tail es)
+    (hr : Event.refused unl false x.id ∈ tail) :
+    tail = [flowEv st x p1, Event.refused unl false x.id] ∧
+    (∃ r ∈ st.refusals, r.unload = unl ∧ r.after = false ∧ r.sym = x.id ∧ es = [r.code]) ∧
+    Event.load x.id ∉ tail ∧ Event.unload x.id ∉ tail := by
+  subst hu
+  rcases h with ⟨h1, _, _⟩ | ⟨r, hm, e1, e2, e3, e4, h1, _⟩ | ⟨r, _, _, _, _, _, h1, _⟩ | ⟨h1, _, _, _⟩
+  · rw [h1] at hr; simp [flowEv] at hr
+  · refine ⟨h1, ⟨r, hm, e1, e2, e3, e4⟩, ?_, ?_⟩ <;> rw [h1] <;> simp [flowEv]
+  · rw [h1] at hr
+    cases hp : isUnl p1 <;> simp [flowEv, hp] at hr
+  · rw [h1] at hr
+    cases hp : isUnl p1 <;> simp [flowEv, hp] at hr
 
 /-- **Error aborts (Free).** When `Free(id)` returns an error it is the error of the unload pass,
 the symbol is *not* removed: symbols, name index, reverse references and port links are
@@ -327,3 +369,44 @@ theorem C08.deps_first_total (o : Ord) (ho : o.Valid) (h : List Op) (hw : WfRun 
   | none => exact absurd hl (linked_ne_none o ho _ sb)
   | some l =>
     exact ⟨l, rfl, linked_pairwise o ho _ (rinv_run o ho h {} rinv_init hw) sb hsb rank hrank l hl⟩
+
+/-! ### non-vacuity: refusing hooks, a dropped answer, a closed responder -/
+
+namespace Uniflow.Table.C08Ex
+/-- an unload hook that runs before the observers always refuses 1 (error 40); a load hook that
+runs after them refuses 2 once (error 41) -/
+def rst : State := { refusals := [⟨true, false, 1, false, 40⟩, ⟨false, true, 2, true, 41⟩] }
+def p1 : Sym := Sym.mk 1 0 0 true [5] [6, 9] none []
+def p2 : Sym := Sym.mk 2 0 0 true [5] [6, 9] none []
+/-- 3 answers every request with `packet.ErrDroppedPacket`; 4 is a node that was closed before -/
+def d3 : Sym := Sym.mk 3 0 0 true [5] [6, 9] (some 63) []
+def c4 : Sym := Sym.mk 4 0 0 true [5] [6, 9] (some 62) []
+def q5 : Sym := Sym.mk 5 0 0 true [5] [6, 9] none [(1, [Ref.mk 3 0 5])]
+def q6 : Sym := Sym.mk 6 0 0 true [5] [6, 9] none [(3, [Ref.mk 4 0 5])]
+end Uniflow.Table.C08Ex
+
+open Uniflow.Table.C08Ex in
+/-- * `Free 1` is refused by the unload hook that runs first: error 40, the log gains the term flow
+  and the refusal only (no unload notification, no final flow, no close), 1 stays in the table;
+* `Insert 2` is refused after the observers were notified: error 41, 2 is in the table, loaded;
+  the retry succeeds (the hook refuses once);
+* `Insert 5`, whose init flow goes to 3: the dropped answer is an error (63) like any other – no load
+  notification, no begin flow;
+* `Free 6`, whose term flow goes to the closed node 4: error 63, the node never saw the request. -/
+theorem C08.refusal_and_drop_nonvacuous :
+    let s1 := (step Ord.id rst (.insert p1)).1
+    let f1 := step Ord.id s1 (.free 1)
+    let i2 := step Ord.id rst (.insert p2)
+    let i2' := step Ord.id i2.1 (.insert p2)
+    let s3 := (step Ord.id {} (.insert d3)).1
+    let i5 := step Ord.id s3 (.insert q5)
+    let s6 := run Ord.id {} [.insert c4, .insert q6]
+    let f6 := step Ord.id s6 (.free 6)
+    f1.2.1 = .err [40] ∧ f1.1.log.drop s1.log.length = [.exec .term 1 [], .refused true false 1] ∧
+      f1.1.symbols.map (·.1) = [1] ∧
+    i2.2.1 = .err [41] ∧ i2.1.log = [.exec .init 2 [], .load 2, .refused false true 2] ∧
+      i2.1.symbols.map (·.1) = [2] ∧ i2'.2.1 = .ok ∧
+    i5.2.1 = .err [63] ∧ i5.1.log.drop s3.log.length = [.exec .init 5 [(3, 5)]] ∧
+    f6.2.1 = .err [63] ∧ f6.1.log.drop s6.log.length = [.exec .term 6 []] ∧
+      f6.1.symbols.map (·.1) = [4, 6] := by
+  decide +kernel
